@@ -473,9 +473,7 @@ def wire_dimension(run, I):
                     what = "wire: frame %s (%s, %d %s) at position %s, %s client: %s" % (
                         name, type(raw).__name__, len(raw), "bytes" if not isinstance(raw, str) else "chars", position, v,
                         "; ".join(problems))
-                    if ref[0] == "undecodable":
-                        run.finding("C13-undecodable-binary", what, rep)
-                    elif bad <= 4:
+                    if bad <= 4:    # no class is open here any more (C13-undecodable-binary fixed by /repo 9eec336)
                         run.violation(what, rep, found_input=True)
     for k, c in dist.items():
         run.dist("wire_reference", k, c)
